@@ -222,7 +222,11 @@ void fill_pattern(Cells& C, vh::Rng& rng, std::string& name) {
     switch (rng.below(9)) {
         case 8: {   // necklace: cells on a closed diagonal loop, each touching its two neighbours at a corner
             name += "neck";
-            const int r = 1 + static_cast<int>(rng.below(static_cast<uint64_t>(std::max(1, (std::min(W, H) - 1) / 2))));
+            // 4*r cells and touching points. r = 4, 5 (16-20 touching points in one loop) are left out: the library's
+            // exhaustive search for ways to join the partial rings needs seconds of CPU per call just below its
+            // recursion limit of 20 (r >= 6 exceeds the limit at once, r <= 3 is cheap).
+            int r = 1 + static_cast<int>(rng.below(static_cast<uint64_t>(std::max(1, (std::min(W, H) - 1) / 2))));
+            if (r == 4 || r == 5) r = rng.coin() ? 3 : ((std::min(W, H) - 1) / 2 >= 6 ? 6 : 2);
             const int cx = r + static_cast<int>(rng.below(static_cast<uint64_t>(std::max(1, W - 2 * r)))), cy = r + static_cast<int>(rng.below(static_cast<uint64_t>(std::max(1, H - 2 * r))));
             for (int j = 0; j < H; ++j) for (int i = 0; i < W; ++i) if (std::abs(i - cx) + std::abs(j - cy) == r) C.set(i, j);
             break;
@@ -238,7 +242,7 @@ void fill_pattern(Cells& C, vh::Rng& rng, std::string& name) {
                     // (seconds per call beyond that), which only costs budget.
             name += "chk";
             int xe = x1, ye = y1;
-            const int cap = rng.chance(1, 8) ? 50 : 32;   // a few bigger ones: they reach the library's recursion limit
+            const int cap = rng.chance(1, 8) ? 50 : 24;   // a few bigger ones: they reach the library's recursion limit
             while ((xe - x0 + 1) * (ye - y0 + 1) > cap) { if (xe - x0 > ye - y0) --xe; else --ye; }
             for (int j = y0; j <= ye; ++j) for (int i = x0; i <= xe; ++i) C.set(i, j, ((i + j) & 1) == 0);
             break;
@@ -339,7 +343,7 @@ Arrangement gen_cells(vh::Rng& rng, bool big) {
     Arrangement A;
     int W, H;
     if (big && rng.chance(1, 4)) { W = H = 20 + static_cast<int>(rng.below(81)); }   // long diagonal chains
-    else if (big) { W = 4 + static_cast<int>(rng.below(9)); H = 4 + static_cast<int>(rng.below(9)); }
+    else if (big) { W = 4 + static_cast<int>(rng.below(11)); H = 4 + static_cast<int>(rng.below(11)); }
     else { W = 1 + static_cast<int>(rng.below(6)); H = 1 + static_cast<int>(rng.below(6)); }
     const int npieces = 1 + static_cast<int>(rng.below(rng.coin() ? 1 : 4));
     std::string name = "cells ";
@@ -1028,6 +1032,15 @@ std::string reported(const Recorder& r) {
     return s;
 }
 
+// family name "cells dia+dia 30x30 ...": all pieces are diagonal chains
+bool only_diagonal_chains(const std::string& family) {
+    if (family.compare(0, 6, "cells ") != 0) return false;
+    std::string pat = family.substr(6, family.find(' ', 6) - 6);
+    size_t pos;
+    while ((pos = pat.find("dia")) != std::string::npos) pat.erase(pos, 3);
+    return pat.find_first_not_of('+') == std::string::npos;
+}
+
 void run_case(uint64_t idx, vh::Rng& rng) {
     const bool T = vh::thorough();
     const bool big = rng.chance(1, T ? 4 : 6);
@@ -1061,6 +1074,10 @@ void run_case(uint64_t idx, vh::Rng& rng) {
         else A.constructed_valid = false;
     }
     const Truth Tr = A.constructed_valid ? T0 : classify(A.edges);
+    // Budget: with 14..23 touching points in dense patterns one assembler call can take seconds of CPU (exponential
+    // search just below the library's recursion limit). Three out of four such arrangements are dropped; chains of
+    // cells on a diagonal are cheap and always kept.
+    if (Tr.n_touch >= 14 && Tr.n_touch <= 23 && !only_diagonal_chains(A.family) && !rng.chance(1, 4)) { vh::count("skipped_expensive_band_14_23_touching_points"); return; }
     std::vector<Seg> all_segments;
     for (const auto& e : A.edges) all_segments.emplace_back(e.a, e.b);
     std::sort(all_segments.begin(), all_segments.end());
@@ -1106,6 +1123,7 @@ void run_case(uint64_t idx, vh::Rng& rng) {
         }
         const std::string ctx = vh::fmt("[%s; defect=%s; variant=%s] ", A.family.c_str(), A.defect.c_str(), TNAME[t]) + describe_input(in);
         const Result R = run_assembler(in);
+        vh::heartbeat();   // progress for the driver's hang oracle: one assembler call finished
         vh::evaluated();
         if (vh::arg_int("dump", 0)) {   // triage only
             std::fprintf(stderr, "=== %s\nret=%d area=%d reported=%s\n", ctx.c_str(), R.ret, R.area_present, reported(R.rep).c_str());
